@@ -11,6 +11,50 @@ open Rl4co.Spec.Loglik
 
 variable {S : Type}
 
+/-! ### extracted parameters (`Generated/Params.lean`): the closed forms the proofs below use; each lemma is
+proved by evaluating the token extracted from `BeamSearch` and stops compiling when that token changes -/
+
+/-- `selected = topk_ind % num_nodes` -/
+theorem selectedOf_eq (c : BeamCfg) (top : Nat → List Nat) (i : Nat) :
+    selectedOf c top i = topInd c top i % c.N := by
+  simp [selectedOf, Params.beamSelectedIsMod]
+
+/-- `beam_parent = (topk_ind // num_nodes).int()` -/
+theorem parentOf_eq (c : BeamCfg) (top : Nat → List Nat) (i : Nat) :
+    parentOf c top i = topInd c top i / c.N := by
+  simp [parentOf, Params.beamParentIsFloorDiv]
+
+/-- `batch_beam_idx = batch_beam_sequence + beam_parent * batch_size` -/
+theorem bbiOf_eq (c : BeamCfg) (top : Nat → List Nat) (i : Nat) :
+    bbiOf c top i = i % c.B + parentOf c top i * c.B := by
+  simp [bbiOf, Params.beamBbiSeqPlusParentTimesB]
+
+/-- `torch.topk(log_beam_prob_hstacked, self.beam_width, dim=1)`: the `beam_width` largest -/
+theorem topkLe_eq (q p : LP) : topkLe q p = lpLe q p := by
+  simp [topkLe, Params.beamTopkLargest, Params.beamTopkKIsWidth]
+
+theorem validTop_closed {c : BeamCfg} {val : Nat → LP} {l : List Nat} (h : ValidTop c val l) :
+    l.length = c.W ∧ l.Nodup ∧ (∀ p ∈ l, p < c.W * c.N) ∧
+      ∀ q, q < c.W * c.N → q ∉ l → ∀ p ∈ l, lpLe (val q) (val p) = true := by
+  obtain ⟨h1, h2, h3, h4⟩ := h
+  refine ⟨h1, h2, h3, fun q hq hn p hp => ?_⟩
+  have := h4 q hq hn p hp
+  rwa [topkLe_eq] at this
+
+/-- `_backtrack`: `batch_beam_idx = batch_beam_sequence + cur_parent * batch_size` -/
+theorem btFromActs_cons (B b : Nat) (buf : BeamBuf) (rest : List BeamBuf) (cur : Nat) :
+    btFromActs B b (buf :: rest) cur
+      = btFromActs B b rest (buf.parent (b + cur * B)) ++ [buf.acts (b + cur * B)] := by
+  simp [btFromActs, Params.beamBacktrackSeqPlusParentTimesB]
+
+theorem btFromRows_cons (B b : Nat) (buf : BeamBuf) (rest : List BeamBuf) (cur : Nat) :
+    btFromRows B b (buf :: rest) cur
+      = btFromRows B b rest (buf.parent (b + cur * B)) ++ [buf.rows (b + cur * B)] := by
+  simp [btFromRows, Params.beamBacktrackSeqPlusParentTimesB]
+
+/-- `BeamSearch.pre_decoder_hook`: `logprobs = torch.zeros_like(td["action_mask"])` -/
+theorem beamForced_eq : Params.beamForcedLogp = 0 := by decide
+
 /-! ### back-tracking -/
 
 theorem add_mul_mod_self (a p B : Nat) : (a % B + p * B) % B = a % B := by
@@ -21,12 +65,12 @@ of its parent row at the previous step, followed by its own action. -/
 theorem btActs_cons (B : Nat) (buf buf' : BeamBuf) (rest : List BeamBuf) (i : Nat) :
     btActs B (buf :: buf' :: rest) i
       = btActs B (buf' :: rest) (i % B + buf.parent i * B) ++ [buf.acts (i)] := by
-  simp only [btActs, btFromActs, add_mul_mod_self]
+  simp only [btActs, btFromActs_cons, add_mul_mod_self]
 
 theorem btRows_cons (B : Nat) (buf buf' : BeamBuf) (rest : List BeamBuf) (i : Nat) :
     btRows B (buf :: buf' :: rest) i
       = btRows B (buf' :: rest) (i % B + buf.parent i * B) ++ [buf.rows (i)] := by
-  simp only [btRows, btFromRows, add_mul_mod_self]
+  simp only [btRows, btFromRows_cons, add_mul_mod_self]
 
 theorem btActs_ne_nil (B : Nat) (bufs : List BeamBuf) (h : bufs ≠ []) (i : Nat) :
     btActs B bufs i ≠ [] := by
@@ -74,15 +118,15 @@ structure BeamInv (e : DEnv S) (π : S → Row) (c : BeamCfg) (plus : Int → In
   score : ∀ i, st.score i = accScore plus (specVals e π (s0 (i % c.B)) true (btActs c.B st.bufs i))
 
 theorem bbiOf_mod (c : BeamCfg) (top : Nat → List Nat) (i : Nat) : bbiOf c top i % c.B = i % c.B := by
-  simp [bbiOf]
+  simp [bbiOf_eq]
 
 theorem beamInv_pre (e : DEnv S) (π : S → Row) (c : BeamCfg) (plus : Int → Int → Int)
     (start : Nat → Nat) (s0 : Nat → S) : BeamInv e π c plus s0 (beamPre e c start s0) := by
   constructor
   · simp [beamPre]
   · intro i; simp [beamPre, btActs, btFromActs, execD]
-  · intro i; simp [beamPre, btActs, btRows, btFromActs, btFromRows, specRows, tfRows]
-  · intro i; simp [beamPre, btActs, btFromActs, specVals, tfVals, accScore]
+  · intro i; simp [beamPre, btActs, btRows, btFromActs, btFromRows, specRows, tfRows, beamForced_eq]
+  · intro i; simp [beamPre, btActs, btFromActs, specVals, tfVals, accScore, beamForced_eq]
 
 theorem beamInv_step (e : DEnv S) (π : S → Row) (c : BeamCfg) (plus : Int → Int → Int)
     (s0 : Nat → S) (top : Nat → List Nat) (st : BeamSt S) (h : BeamInv e π c plus s0 st) :
@@ -110,7 +154,7 @@ theorem beamInv_step (e : DEnv S) (π : S → Row) (c : BeamCfg) (plus : Int →
       have h1 : (beamStep e c plus (fun i => π (st.s i)) top st).score i
           = lpAdd plus (gather (π (st.s (bbiOf c top i))) (selectedOf c top i))
               (st.score (bbiOf c top i)) := by
-        simp only [beamStep, hstacked, logBeam, selectedOf, parentOf, bbiOf]
+        simp only [beamStep, hstacked, logBeam, selectedOf_eq, parentOf_eq, bbiOf_eq]
         rw [Nat.add_comm (topInd c top i / c.N * c.B)]
       rw [h1]
       simp only [beamStep, hb]
